@@ -33,12 +33,25 @@ def run(tier, seed, replay=None):
         if mc.rc != 0:
             raise Infra("CrcMC failed (rc=%s)\n%s" % (mc.rc, mc.out[-3000:]))
         trace = sc.path("trace.ndjson")
-        inp = {"seed": seed, "msgs": 1500 if thorough else 300, "artefacts": 60 if thorough else 12,
-               "all_subst": 6 if thorough else 1, "trace": trace}
-        rc, out, err = vlib.run_vdrv(["crc"], stdin=json.dumps(inp), timeout=3000)
-        if rc != 0:
-            raise Infra("vdrv crc failed rc=%s: %s" % (rc, err[-2000:]))
-        res = json.loads(out)
+        # several driver processes (bounded virtual memory each, see crc.go), run in parallel
+        nproc, per = (10, 4) if thorough else (3, 3)
+        import subprocess, concurrent.futures
+        def one(i):
+            inp = {"seed": seed * 100 + i, "msgs": (1500 if thorough else 300) if i == 0 else 5, "artefacts": per,
+                   "all_subst": 1 if i < (6 if thorough else 1) else 0, "trace": sc.path("trace-%d.ndjson" % i),
+                   "budget_s": 900 if thorough else 120}
+            return vlib.run_vdrv(["crc"], stdin=json.dumps(inp), timeout=3000, env={"GOGC": "off"})
+        with concurrent.futures.ThreadPoolExecutor(max_workers=8) as ex:
+            results = list(ex.map(one, range(nproc)))
+        res = {"crc": 0, "faults": 0}
+        with open(trace, "w") as out_f:
+            for i, (rc, out, err) in enumerate(results):
+                if rc != 0:
+                    raise Infra("vdrv crc failed rc=%s: %s" % (rc, err[-2000:]))
+                r1 = json.loads(out)
+                res["crc"] += r1["crc"]
+                res["faults"] += r1["faults"]
+                out_f.write(open(sc.path("trace-%d.ndjson" % i)).read())
         rows = vlib.read_ndjson(trace)
         r = vlib.tlc(sc, "CrcTrace", "CrcTrace.cfg", workers=1, timeout=3000)
         if r.rc != 0:
